@@ -262,7 +262,13 @@ def main():
                 cls, mode = "SA", "exact"
                 objs = [{"comp": "sa", "r": 0}, {"comp": "sac", "r": 0}]
             elif fam in ("sam", "paths_sam"):
-                if rng.random() < 0.3:
+                kind = rng.random()
+                if kind < 0.4:
+                    # integer XOS (maximum of a few additive integer valuations), negated: superadditive, monotone non-increasing, not convex
+                    adds = [[rng.randint(0, 6) for _ in range(n)] for _ in range(rng.randint(2, 4))]
+                    v = [-float(max(sum(a[i] for i in range(n) if c >> i & 1) for a in adds)) for c in range(2 ** n)]
+                    v[0] = 0.0
+                elif kind < 0.6:
                     g = GENERATORS[rng.choice(INT_SAM)](n, nprng)
                     v = [float(x) for x in g.get_values()]
                 else:
